@@ -34,11 +34,11 @@ demo_with=$(res demo_cmd)
 cd /; git -C /repo worktree remove --force "$WT" 2>/dev/null; rm -rf "$WT" "$TGT"; git -C /repo worktree prune
 echo "applies=$applies compiles_std=$c_std compiles_alloc=$c_alloc compiles_none=$c_none existing_tests_pass=$tests demo_passes_without=$demo_without demo_passes_with=$demo_with"
 if [ "$applies$c_std$c_alloc$c_none$tests$demo_without$demo_with" = "truetruetruetruetruetruefalse" ]; then
-  mkdir -p "/verif/seeded/$NAME"
-  cp "$SRC/patch.diff" "/verif/seeded/$NAME/patch.diff"
-  [ -f "$SRC/demo.rs" ] && cp "$SRC/demo.rs" "/verif/seeded/$NAME/demo.rs"
-  [ -f "$SRC/demo.sh" ] && cp "$SRC/demo.sh" "/verif/seeded/$NAME/demo.sh"
-  cp "$SRC/meta.json" "/verif/seeded/$NAME/agent_meta.json"
+  DEST="${DEST_ROOT:-/verif/seeded}"; mkdir -p "$DEST/$NAME"
+  cp "$SRC/patch.diff" "$DEST/$NAME/patch.diff"
+  [ -f "$SRC/demo.rs" ] && cp "$SRC/demo.rs" "$DEST/$NAME/demo.rs"
+  [ -f "$SRC/demo.sh" ] && cp "$SRC/demo.sh" "$DEST/$NAME/demo.sh"
+  cp "$SRC/meta.json" "$DEST/$NAME/agent_meta.json"
   echo "CONFIRMED $NAME"
 else
   echo "NOT CONFIRMED $NAME"
